@@ -487,6 +487,9 @@ fn analyze_json(src: &AnalyzedSource, want_tree: bool, want_table: bool, want_to
 fn op_history(req: &Value) -> Value {
     let text0 = req["text"].as_str().unwrap_or("").to_string();
     let want_inv = req["inv"].as_bool().unwrap_or(true);
+    // judge = "valid": compare only after steps whose text is lexically and syntactically valid (typing passes through broken states)
+    let only_valid = req["judge"].as_str() == Some("valid");
+    let mut judged = 0usize;
     let mut cur = match catch(|| AnalyzedSource::new(text0.clone())) {
         Ok(a) => a,
         Err(p) => return json!({"steps_done": 0, "fresh_panic": p, "step": -1}),
@@ -529,6 +532,17 @@ fn op_history(req: &Value) -> Value {
             Err(p) => return json!({"steps_done": k, "fresh_panic": p, "step": k}),
         };
         let _ = spl_frontend::verif::take_counters();
+        if only_valid {
+            let broken = match catch(|| fresh.errors()) {
+                Ok(e) => e.iter().any(|e| matches!(class_of(&e.1), "lex" | "parse")),
+                Err(p) => return json!({"steps_done": k, "fresh_panic": p, "step": k}),
+            };
+            if broken {
+                cur = upd;
+                continue;
+            }
+        }
+        judged += 1;
         let mut what = Vec::new();
         let mut detail = serde_json::Map::new();
         if upd.text != fresh.text {
@@ -572,12 +586,12 @@ fn op_history(req: &Value) -> Value {
             }
         }
         if !what.is_empty() {
-            return json!({"steps_done": k + 1, "div": {"step": k, "what": what, "detail": detail}, "windows": windows,
+            return json!({"steps_done": k + 1, "div": {"step": k, "what": what, "detail": detail}, "windows": windows, "judged": judged,
                           "counters": [counters.0, counters.1, counters.2]});
         }
         cur = upd;
     }
-    json!({"steps_done": steps.len(), "div": Value::Null, "windows": windows, "counters": [counters.0, counters.1, counters.2],
+    json!({"steps_done": steps.len(), "div": Value::Null, "windows": windows, "judged": judged, "counters": [counters.0, counters.1, counters.2],
            "final_errors": catch(|| cur.errors()).map(|e| json!(e.len())).unwrap_or(Value::Null)})
 }
 
